@@ -275,6 +275,31 @@ def run(tier, seed, work, repo, ill_suspects=None):
         cdir = os.path.join(root, f'pos_{cname}')
         write_crate(cdir, src, repo, feature, lib=nostd)
         jobs.append(('pos', cname, cdir, ranges, None))
+    # ---- pos, context types: a concrete context need not be a bare path
+    CTX_TYPES = ['Vec<u32>', '(u8, bool)', '()', 'Option<Ctx>', '[u8; 4]', "&'static str", 'Box<Ctx>',
+                 'core::primitive::u16', 'std::collections::BTreeMap<u8, Vec<Ctx>>']
+    for feature in (False, True):
+        src = PRELUDE_STD
+        line = src.count('\n') + 1
+        ranges = []
+        for i, ty in enumerate(CTX_TYPES):
+            for asy in (False, True):
+                dyn = '' if feature else 'dynamic: true,\n'
+                text = (f'name: M,\ncontext: {ty},\n{dyn}' + ('async: true,\n' if asy else '') +
+                        'initial: A,\nstates: [A, B(D)],\nevents: {\n  go { guards: [ok], transition: { from: A, to: B } }\n},')
+                afn = 'async fn' if asy else 'fn'
+                code = (f'pub mod k{i}{int(asy)} {{\nuse super::*;\nuse state_machines::state_machine;\nstate_machine! {{\n{text}\n}}\n'
+                        f'impl<S> M<S> {{ {afn} ok(&self, _c: &{ty}) -> bool {{ true }} }}\n'
+                        f'pub fn mk(c: {ty}) -> (M<A>, DynamicM, DynamicM) {{ (M::new(c), M::new(<{ty} as Default>::default()).into_dynamic(), DynamicM::default()) }}\n}}')
+                n = code.count('\n') + 1
+                ranges.append((line, line + n - 1, text, feature))
+                src += code + '\n'
+                line += n
+        src += 'fn main() {}\n'
+        cname = 'ctxtypes_feature' if feature else 'ctxtypes'
+        cdir = os.path.join(root, f'pos_{cname}')
+        write_crate(cdir, src, repo, feature, lib=False)
+        jobs.append(('pos', cname, cdir, ranges, None))
     # ---- probes
     pds = gen_pos_defs(rng, cfg['probe'], {'dynamic': True})
     items = [(f'probe{i}', False, d) for i, d in enumerate(pds)]
